@@ -267,6 +267,61 @@ func c14TwoMovesCase(stepNames []string, mulAt int, unroll int) *Case {
 	return cs
 }
 
+// c14RepeatVsSuffixCase: 'walk_a * N' in one moves() and the single step
+// 'walk_a<d>' in another: whatever N is, the two blocks are different and each
+// command gets its own.
+func c14RepeatVsSuffixCase(digit string, unroll int) *Case {
+	atoms := &AtomTable{Coded: true}
+	sname := atoms.New(ClsIdent, "script", "names")
+	c1, c2 := atoms.New(ClsPlainCmd, "cmd", ""), atoms.New(ClsPlainCmd, "cmd", "")
+	o1, o2 := atoms.New(ClsIdent, "obj", ""), atoms.New(ClsIdent, "obj", "")
+	m := atoms.New(ClsNum, "mult", "")
+	l1 := c1.Placeholder() + "(" + o1.Placeholder() + ", moves(walk_a * " + m.Placeholder() + "))"
+	l2 := c2.Placeholder() + "(" + o2.Placeholder() + ", moves(walk_a" + digit + "))"
+	prog := &Program{Atoms: atoms, Tops: []interface{}{&Script{Name: sname, Body: []Stmt{&RawStmt{Text: l1}, &RawStmt{Text: l2}}}}}
+	cs := &Case{Name: "c14/two-moves/repeat-vs-step-named-walk_a" + digit, Prog: prog, Variants: optVariants[:1], NonTrivial: true,
+		Shape: c14Shape{Kind: "two-moves", Entries: []string{"walk_a * N", "walk_a" + digit}}, MaxPaths: 2000}
+	cs.Setup = func(x *OracleCtx) {
+		x.C.MaxDecide = (unroll + 3) + 60
+		x.C.User["unroll"] = unroll
+	}
+	cs.Oracle = func(x *OracleCtx) *Violation {
+		res := x.Res["opt"]
+		if res.Err.Panic != "" {
+			return &Violation{Sub: "panic", Msg: res.Err.Panic}
+		}
+		t := m.IntT
+		inRange := fmt.Sprintf("(and (>= %s 1) (<= %s 9999))", t, t)
+		if x.C.Valid(inRange) != interp.Unsat {
+			if x.C.Check(inRange) == interp.Unsat {
+				if !res.Err.IsErr {
+					return &Violation{Sub: "multiplier", Msg: "a multiplier outside 1..9999 was accepted"}
+				}
+				return nil
+			}
+			panic(interp.Inconclusive{Msg: "multiplier range not decided on this path"})
+		}
+		n, ok := uniqueInt(x.C, t)
+		if !ok {
+			if res.Err.IsErr {
+				return &Violation{Sub: "multiplier", Query: inRange, Msg: "a multiplier inside 1..9999 was rejected: " + interp.ToString(res.Err.Msg)}
+			}
+			panic(interp.Inconclusive{Msg: "multiplier not determined by the path condition"})
+		}
+		if res.Err.IsErr {
+			return &Violation{Sub: "accept", Msg: "well-formed moves() were rejected: " + interp.ToString(res.Err.Msg)}
+		}
+		lb0, lb1 := cat(sname.Val, "_Movement_0"), cat(sname.Val, "_Movement_1")
+		want := []interp.Value{cat(sname.Val, "::"), cat("\t", c1.Val, " ", o1.Val, ", ", lb0), cat("\t", c2.Val, " ", o2.Val, ", ", lb1), "\treturn", cat(lb0, ":")}
+		for i := int64(0); i < n; i++ {
+			want = append(want, "\twalk_a")
+		}
+		want = append(want, "\tstep_end", cat(lb1, ":"), "\twalk_a"+digit, "\tstep_end")
+		return expectLines(x, "movement", fmt.Sprintf("'walk_a * %d' and 'walk_a%s'", n, digit), nonBlank(outputLines(res.Out, false)), want)
+	}
+	return cs
+}
+
 func c14MartCase(entries []string, withConst bool) *Case {
 	atoms := &AtomTable{Coded: true}
 	name := atoms.New(ClsIdent, "mart", "names")
@@ -355,6 +410,7 @@ func RunC14(env *Env, rep *Report) {
 	}{{[]string{"walk_a"}, 0}, {[]string{"walk_a", "walk_b"}, 1}, {[]string{"walk_a", "walk_b"}, 0}, {[]string{"walk_a", "walk_b", "walk_a"}, 2}} {
 		cases = append(cases, c14TwoMovesCase(tm.steps, tm.at, 3))
 	}
+	cases = append(cases, c14RepeatVsSuffixCase("2", 3), c14RepeatVsSuffixCase("3", 3), c14RepeatVsSuffixCase("11", 3))
 	for _, kind := range []string{"movement", "mart", "moves"} {
 		for _, sel := range []string{"empty-brace", "two-brace", "one-colon", "fallback", "terminator-colon"} {
 			if kind == "moves" && (sel == "empty-brace" || sel == "two-brace") {
